@@ -148,8 +148,22 @@ def run_case(case):
     Returns (failures [(sig, what)], info dict)."""
     from ioflo.aid.consoling import getConsole
     console = getConsole()
+    if case.get("profuse"):
+        # the most talkative console level (-v 4): what is written to the console must not change what is transported
+        import contextlib
+        import io
+        console.reinit(verbosity=4)
+        try:
+            with contextlib.redirect_stdout(io.StringIO()):
+                return _run_case(case)
+        finally:
+            console.reinit(verbosity=0)
     if console._verbosity:
         console.reinit(verbosity=0)
+    return _run_case(case)
+
+
+def _run_case(case):
     variant = case["variant"]
     if variant in REAL_VARIANTS:
         return run_real(case)
@@ -166,7 +180,7 @@ def run_case(case):
     rig = Rig(variant, bs)
     obj = rig.obj
     queued = bytearray()
-    rxpos = 0
+    rxpos = case.get("rxbase", 0)      # position code of the first received byte (codes >= 128 are no UTF-8 on their own)
     info = {"partial": False, "wb": False, "drained": False, "rx_chunks": 0}
 
     def check(step, op):
@@ -558,12 +572,15 @@ def work(shard, seed, tier):
                     ops = [[kind, items[i:i + per]] for i in range(0, len(items), per)]
                     ops += [[kind] for _ in range(len(items))]
                     case = {"variant": variant, "ops": ops, "bs": 2}
+                    if (len(items) + per) % 4 == 0:
+                        # a quarter of the receive scripts with binary data (not UTF-8) under the most talkative console level
+                        case.update(profuse=True, rxbase=126)
                     fails, info = run_case(case)
                     nchunks = sum(1 for it in items if isinstance(it, int))
                     nt = nchunks >= 2 and None in items
                     acc.case(key=(variant, ops), nontrivial=nt,
                              classes=[variant + "-rx", "rx-nontrivial" if nt else "rx-simple"] +
-                                     (["rx-eof"] if "eof" in items else []),
+                                     (["rx-eof"] if "eof" in items else []) + (["rx-binary-under-profuse-console"] if case.get("profuse") else []),
                              sample=case if (items == [2, None, 3, 1] and once and per == 2) else None)
                     for sig, what in fails:
                         acc.fail(sig, what, case)
